@@ -207,7 +207,7 @@ class Fold:
         def app(kk):
             return F(seq, kk, *(harrs + params))
         term = app(k)
-        key = ('fold', self.name, term.get_id())
+        key = ('fold', self.name, ctx.keep(term))
         if key not in ctx.fold_instances:
             ctx.fold_instances.add(key)
             from .contract import ObjView
